@@ -28,6 +28,9 @@ CLAIMED = {
  "C04": ("exploration", "deterministic simulation: real adapters + BroadcastOperator behind a recording rig; seeded membership/broadcast histories against a reference model, interval semantics under concurrency with stalls on the adapter mutex, porcupine for membership operations; exhaustive 3x3 matrix as a fixed plan",
          "Component rig over the repository's own SocketStore/Socket interfaces (in-memory and session-aware adapter). Sequential histories of join/leave/disconnect/SocketsJoin/SocketsLeave/DisconnectSockets/namespace and socket broadcasts/operator reuse: recipients equal the model exactly, each once, never the sender, membership equals the net effect of joins and leaves, a disconnected socket is in no room. Fixed plan: all 2^9 membership matrices of 3 sockets x 3 rooms x all 64 (T,E) (exhaustive). Concurrent histories (2-5 tasks, stalls while apply() has released its mutex): a socket whose membership nobody touched during the broadcast gets it iff the model says so, everybody else 0 or 1 times, nobody twice; AddAll/Delete/DeleteAll/SocketRooms histories linearizable against a map of sets.",
          "§7 C04", TB),
+ "C05": ("exploration", "deterministic simulation: seeded programs of connect / emit / ack / broadcast / disconnect operations over look-alike namespaces multiplexed on shared connections, under stalls on the routing code; protocol-level peer sending packets for namespaces it has not joined",
+         "Real sio server with 2-5 namespaces out of {/, /a, /ab, /a/b, /A, /chat, /chat/, /ünï, /a-b}; 1-3 managers, each with sockets in 1-4 of them on one connection, optionally one in a namespace the server does not have; 10-60 operations at drawn (often coinciding) instants: client and server emits with and without acknowledgement, namespace and room broadcasts (every socket is in room r of its namespace), Disconnect from either side. Every payload names its namespace, target manager and a unique id. Oracle: every handler and acknowledgement callback runs in the namespace and for the socket its payload names (acknowledgement ids collide across namespaces by construction); the unknown namespace yields exactly one connect_error and never connects; a socket that nobody disconnected stays connected and passes a final probe in both directions whatever happened to its siblings; no call blocks. raw mode: a protocol-level polling peer that has joined a drawn subset sends EVENT / ACK / DISCONNECT / BINARY_EVENT / EVENT-with-id for an existing-but-unjoined or unknown namespace (incl. the '/,' spelling): no handler may run, the connection must be closed, a witness client on another connection stays connected.",
+         "§7 C05", TB),
  "C06": ("fault_enumeration", "deterministic simulation: termination cause x phase matrix with simultaneous causes + fixed sweep of connection cuts over byte offsets; lifecycle-handler counting oracle, server-state residue checks, sid probe",
          "Real sio server, a victim client and a bystander. Causes {client Disconnect, manager Close, server Disconnect(false/true), DisconnectSockets(false/true), Server.Close, cut, fin, black-hole}, one or two at the same fake instant, in phases {idle, mid-burst both ways, during the upgrade, while a namespace middleware sleeps, Engine.IO session without CONNECT}; fixed sweep: victim's polling/WebSocket connections cut at byte k. Every server socket whose connection handler ran: disconnecting once with rooms still joined, then disconnect once, reason in the cause's set; client: one disconnect per connection; afterwards the socket is in no Sockets() list and no room, the old Engine.IO sid answers {code:1}; the bystander is untouched; no closing call hangs.",
          "§7 C06", TB),
